@@ -91,7 +91,11 @@ U.fn(SC, 'Scopes::add_variable', attrs=['external_body'],
 U.append(SC, '''
 // ---- C05: the lookup order as the property states it: innermost scope first; in a scope variables, then fields (own and inherited),
 // ---- then template arguments; global defs last
-pub uninterp spec fn sp_scope_var(s: &Scope, name: EcoString) -> Option<VariableId>;
+/// a scope's own variables: what was declared in it (defvar, bang-operator variables, ...) and, for a foreach scope, its iterator
+pub open spec fn sp_scope_var(s: &Scope, name: EcoString) -> Option<VariableId> {
+    if s.name_to_variable@.contains_key(name) { Some(s.name_to_variable@[name]) }
+    else { match s.kind { ScopeKind::Foreach(n, id) => if n == name { Some(id) } else { None }, _ => None } }
+}
 pub open spec fn local_at(sc: &Scope, sm: &SymbolMap, name: EcoString) -> Option<SymbolId> {
     match sp_scope_var(sc, name) {
         Some(v) => Some(SymbolId::VariableId(v)),
@@ -131,8 +135,11 @@ U.fn(SC, 'Scopes::find_variable_in_current_scope', attrs=['external_body'],
 U.fn(SC, 'Scope::new', ensures=['fk(ret.kind) == fk(kind)'])
 for f, k in (('record_id', 'Record'), ('defset_id', 'Defset'), ('multiclass_id', 'Multiclass'), ('defm_id', 'Defm')):
     U.fn(SC, 'Scope::' + f, ensures=['ret == (match self.kind { ScopeKind::%s(id) => Some(id), _ => None })' % k])
-U.fn(SC, 'Scope::add_variable', attrs=['external_body'])
-U.fn(SC, 'Scope::find_variable', attrs=['external_body'], ensures=[C('ret == sp_scope_var(self, *name)', 'C05', name='ASSUMED: a scope\'s own variables (HashMap lookup, foreach iterator name)')])
+U.fn(SC, 'Scope::add_variable', tags='C05', prologue='broadcast use {ax_ecostring_key_model, axiom_random_state_builds_valid_hashers};',
+     ensures=[C('final(self).name_to_variable@ == old(self).name_to_variable@.insert(name, variable_id)', 'C05', name='a declared variable is found under its name afterwards (and replaces an earlier one of that name)'),
+              'fk(final(self).kind) == fk(old(self).kind)'])
+U.fn(SC, 'Scope::find_variable', tags='C05', prologue='broadcast use {ax_ecostring_key_model, axiom_random_state_builds_valid_hashers}; proof { ax_ecostring_eq(); }',
+     ensures=[C('ret == sp_scope_var(self, *name)', 'C05', name='a scope\'s own variables: declared ones first, then the foreach iterator')])
 
 # ----------------------------------------------------------------------------- context.rs
 U.fn(CTX, 'IndexCtx::new', attrs=['external_body'], ensures=['cwf(&ret)', 'frames(&ret) =~= seq![Fk::Root]', 'ret.file_trace@ =~= seq![root_file]',
